@@ -114,6 +114,9 @@ class StagingHelper_Local(object):
         src = ru.Url(src).path
         tgt = ru.Url(tgt).path
         self.mkdir(os.path.dirname(tgt), flags)
+        if os.path.isdir(tgt):
+            # like `copy` and `move`: place the link in the target directory
+            tgt = os.path.join(tgt, os.path.basename(src))
         os.link(src, tgt)
 
     def download(self, src, tgt, flags):
